@@ -291,6 +291,9 @@ struct Ev<'a> {
     look: bool,
     active: HashSet<(String, usize, Atom, usize)>,
     nested: HashMap<(String, usize, Atom), u32>,
+    /// active rule calls, outermost first; the flag says the call was made by the implicit skip
+    chain: Vec<(String, bool)>,
+    implicit_next: bool,
     fuel: u64,
     depth: usize,
     facts: Facts,
@@ -353,6 +356,7 @@ impl<'a> Ev<'a> {
             self.star_rule("WHITESPACE")?;
             loop {
                 let before = (self.pos, self.stack.clone());
+                self.implicit_next = true;
                 if !self.call("COMMENT")? {
                     break;
                 }
@@ -374,6 +378,7 @@ impl<'a> Ev<'a> {
     fn star_rule(&mut self, name: &str) -> Result<(), Abort> {
         loop {
             let before = (self.pos, self.stack.clone());
+            self.implicit_next = true;
             if !self.call(name)? {
                 return Ok(());
             }
@@ -476,9 +481,22 @@ impl<'a> Ev<'a> {
         self.facts.rule_calls += 1;
         // re-entry with the very same stack object (exact for stack-free grammars, where it is always empty)
         let key = (rule.name.clone(), self.pos, self.atom, self.stack.ptr());
+        let implicit = std::mem::replace(&mut self.implicit_next, false);
         if !self.active.insert(key.clone()) {
-            return Err(Abort::Diverges(format!("rule {} re-entered at position {} without progress", rule.name, self.pos)));
+            // the cycle: from the earlier activation of this rule to here
+            let from = self.chain.iter().rposition(|(n, _)| *n == rule.name).unwrap_or(0);
+            let mut cyc: Vec<String> = self.chain[from..].iter().map(|(n, imp)| if *imp { format!("[implicit]{n}") } else { n.clone() }).collect();
+            cyc.push(if implicit { format!("[implicit]{}", rule.name) } else { rule.name.clone() });
+            let via = self.chain[from + 1..].iter().any(|(_, imp)| *imp) || implicit;
+            return Err(Abort::Diverges(format!(
+                "rule {} re-entered at position {} without progress; cycle {}{}",
+                rule.name,
+                self.pos,
+                cyc.join(" -> "),
+                if via { "; via-implicit-skip" } else { "" }
+            )));
         }
+        self.chain.push((rule.name.clone(), implicit));
         // nested re-entries at the same position with a *different* stack (e.g. recursion through
         // PUSH_LITERAL("")): not provably endless, but runaway -- give up on the case early
         let nk = (rule.name.clone(), self.pos, self.atom);
@@ -516,6 +534,7 @@ impl<'a> Ev<'a> {
         let r = self.eval(&rule.body);
         self.atom = saved_atom;
         self.depth -= 1;
+        self.chain.pop();
         self.active.remove(&key);
         if let Some(c) = self.nested.get_mut(&nk) {
             *c -= 1;
@@ -731,6 +750,8 @@ pub fn run_with(g: &CGrammar, rule: &str, input: &str, fuel: u64, stack: Vec<Str
         look: false,
         active: HashSet::new(),
         nested: HashMap::new(),
+        chain: vec![],
+        implicit_next: false,
         fuel,
         depth: 0,
         facts: Facts::default(),
